@@ -15,6 +15,8 @@ func stSub(i int) c11Step    { return c11Step{kind: "sub", idx: i} }
 func stStart(c int) c11Step  { return c11Step{kind: "start", idx: c} }
 func stFinish(c int) c11Step { return c11Step{kind: "finish", idx: c} }
 func stRead(i int) c11Step   { return c11Step{kind: "readsub", idx: i} }
+func stCancel(c int) c11Step { return c11Step{kind: "cancel", idx: c} }
+func stFinCan(c int) c11Step { return c11Step{kind: "fincancel", idx: c} }
 func stFrame(owner string, idx int, t uint8, frags ...int) c11Step {
 	if len(frags) == 0 {
 		frags = []int{0}
@@ -42,6 +44,8 @@ func c11Fixed() []c11Scenario {
 		{"unmatched-frames", 2, 1, 1, []c11Step{stOnDisc(0), stSub(0), stStart(0), stFinish(0), stFrame("none", 0, R), stFrame("call", 1, R),
 			stFrame("call", 0, V, 14, 14, 0), stStart(1), stFinish(1), stFrame("sub", 0, R)}},
 		{"subs-only", 0, 2, 2, []c11Step{stSub(0), stOnDisc(0), stSub(1), stFrame("sub", 1, V), stOnDisc(1), stRead(1)}},
+		{"cancelled-calls", 3, 0, 1, []c11Step{stOnDisc(0), stCancel(0), stStart(0), stStart(1), stFinish(1), stStart(2), stFinish(2),
+			stCancel(1), stFrame("call", 2, R, 28, 0), stFinCan(1)}},
 		{"three-pending", 3, 1, 1, []c11Step{stSub(0), stStart(0), stFinish(0), stStart(1), stFinish(1), stOnDisc(0), stStart(2), stFinish(2)}},
 	}
 }
